@@ -372,12 +372,25 @@ func (ex *Exec) convert(from, to types.Type, v Value) Value {
 			}
 			if eb.Kind() == types.Int32 {
 				if !s.Concrete() {
-					for _, b := range s.sym {
-						ex.assume(tc.Cmp(OUlt, b, tc.Const(8, 0x80)), "[]rune(symbolic string): bytes assumed ASCII")
+					// decode with the REAL unicode/utf8.DecodeRuneInString (forks on the encoding
+					// class of each sequence; invalid bytes give U+FFFD, width 1, as in Go)
+					pkg := ex.P.prog.ImportedPackage("unicode/utf8")
+					if pkg == nil || pkg.Func("DecodeRuneInString") == nil {
+						ex.unsupported("[]rune(symbolic string) needs unicode/utf8")
 					}
-					sl := ex.makeSlice(ts.Elem(), len(s.sym), len(s.sym))
-					for i, b := range s.sym {
-						ex.sliceSet(sl, i, tc.ZExt(b, 32))
+					var rs []*Term
+					for i := 0; i < len(s.sym); {
+						res := ex.callFunction(pkg.Func("DecodeRuneInString"), []Value{ex.mkStr(s.sym[i:])}, nil, token.NoPos).(TupleV)
+						sz := ex.concretize(res[1].(*Term), true, "utf-8 sequence width")
+						if sz < 1 {
+							sz = 1
+						}
+						rs = append(rs, res[0].(*Term))
+						i += int(sz)
+					}
+					sl := ex.makeSlice(ts.Elem(), len(rs), len(rs))
+					for i, r := range rs {
+						ex.sliceSet(sl, i, r)
 					}
 					return sl
 				}
